@@ -53,7 +53,13 @@ def closures(tier: str) -> List[Dict[str, Any]]:
              {"import_coredefs": False, "validate_alignment": False}, mis),
             ("AUTO_PAD false in the root file, aligned definitions", {"IMPORT_COREDEFS": "false", "AUTO_PAD": "false"},
              {"import_coredefs": False, "auto_pad": False}, ali),
-            ("default options, misaligned definitions (padding added)", {"IMPORT_COREDEFS": "false"}, {"import_coredefs": False}, mis)):
+            ("default options, misaligned definitions (padding added)", {"IMPORT_COREDEFS": "false"}, {"import_coredefs": False}, mis),
+            # what the file declares and what the compilation used differ (the command line overrides the file)
+            ("VALIDATE_ALIGNMENT true declared, compiled with validation off", {"IMPORT_COREDEFS": "false", "VALIDATE_ALIGNMENT": "true"},
+             {"import_coredefs": False, "validate_alignment": False}, mis),
+            ("AUTO_PAD true declared, compiled with auto_pad off, aligned definitions", {"IMPORT_COREDEFS": "false", "AUTO_PAD": "true"},
+             {"import_coredefs": False, "auto_pad": False}, ali),
+            ("IMPORT_COREDEFS true declared and used", {"IMPORT_COREDEFS": "true"}, {"import_coredefs": True}, ali)):
         files = {"root.yaml": {"compiler_options": opts, **body}}
         out.append({"files": defx.Program(files).to_json()["files"], "kw": kw, "label": label, "feats": []})
     seqs = c04.sequences("quick")[:: 40]
@@ -65,7 +71,7 @@ def closures(tier: str) -> List[Dict[str, Any]]:
 
 
 def run_group(args) -> List[Dict[str, Any]]:
-    gi, group = args
+    gi, group, tier = args
     base = core.scratch_dir("c16")
     problems_all = []
     try:
@@ -80,6 +86,10 @@ def run_group(args) -> List[Dict[str, Any]]:
             if run == 1:
                 # the second run builds every closure of the group into ONE directory that already holds the previous closure's outputs
                 spec["shared_out"] = os.path.join(base, "run1", "shared_out")
+            else:
+                # the first run asks for one output per invocation (six compilations of the closure), the second for all at once:
+                # what one back end does to the shared parser must not show in another's output
+                spec["one_by_one"] = True if tier == "thorough" else "groups"
             sp = os.path.join(base, f"spec{run}.json")
             with open(sp, "w") as f:
                 json.dump(spec, f)
@@ -230,10 +240,10 @@ def run(tier: str) -> int:
     cls = closures(tier)
     fam = [c for c in cls if c.get("family")]
     rest = core.shuffled([c for c in cls if not c.get("family")], "c16")
-    groups = [(i, g) for i, g in enumerate([fam + rest[:6]] + core.chunks(rest[6:], 12))]
+    groups = [(i, g, tier) for i, g in enumerate([fam + rest[:6]] + core.chunks(rest[6:], 12))]
     res = core.pmap(run_group, groups)
     core.close_pool()
-    order = [c for _, g in groups for c in g]
+    order = [c for _, g, _t in groups for c in g]
     i = 0
     nontriv = 0
     for grp in res:
@@ -262,7 +272,7 @@ def replay(case) -> int:
     if case.get("shipped"):
         probs = shipped_core()
     else:
-        probs = run_group((0, [case["closure"]]))[0]["problems"]
+        probs = run_group((0, [case["closure"]], "thorough"))[0]["problems"]
     hit = [p for p in probs if p["kind"] == case["problem"]["kind"]]
     for p in hit[:5]:
         print("  PROBLEM:", p)
